@@ -42,6 +42,17 @@ CHECK_DEADLOCK FALSE
 """
 
 
+def refined_known(ctx):
+    """The known list of C11 is findings/known_C11.json alone: its signatures say WHERE the crash fell.  Coarser C11 entries of
+    the central known_findings.json (which this check cannot edit) would mask every crash inside a reorg, so they are dropped."""
+    frag = os.path.join(vlib.VERIF, "findings", "known_C11.json")
+    own = {k["signature"] for k in json.load(open(frag))} if os.path.exists(frag) else set()
+    dropped = sorted(s for s in ctx.known if s not in own)
+    ctx.known = {s: k for s, k in ctx.known.items() if s in own}
+    if dropped:
+        ctx.note("ignored %d coarser C11 entries of the central known_findings.json (superseded by findings/known_C11.json)" % len(dropped))
+
+
 def known_for_model(ctx):
     out = []
     for sig in sorted(ctx.known):
@@ -238,6 +249,7 @@ def run(ctx):
                         "one crash per history in the real runs (every write of every call); two crashes only at design level",
                         "the database is an in-memory youdb.Database; a crash is a frozen copy of the key/value map after a "
                         "Put/Delete/Batch.Write (batches are atomic)"]
+    refined_known(ctx)
     behs, violated = generate(ctx)
     for b in behs[:2] + behs[-2:]:
         ctx.sample(b)
@@ -253,5 +265,6 @@ def run(ctx):
 
 
 def replay(ctx, path):
+    refined_known(ctx)
     data = json.load(open(path))
     judge(ctx, data["behaviours"], conformance=False)
